@@ -835,7 +835,9 @@ func Verif_C29_GexServer() {
 	key := &c29Key{blob: verifrt.Bytes(4)}
 	var res *kexResult
 	var err error
-	pn := verifrt.Panics(func() { res, err = (&dhGEXSHA{hashFunc: crypto.SHA256}).Server(conn, &c29Rand{}, &mg.m, key, c29KeyAlgo) })
+	pn := verifrt.Panics(func() {
+		res, err = (&dhGEXSHA{hashFunc: crypto.SHA256}).Server(conn, &c29Rand{}, &mg.m, key, c29KeyAlgo)
+	})
 	verifrt.Assert(!pn, "GEX Server does not panic")
 	verifrt.Assert(err != nil && res == nil, "run ends with an error (peer closed)")
 	valid := min <= n && n <= max && max >= 2048 && min <= 4096
